@@ -584,6 +584,7 @@ class Emit:
     def binop(s, op, t, a, b, flags=()):
         if isinstance(t, FloatT):
             c = {'fadd': '+', 'fsub': '-', 'fmul': '*', 'fdiv': '/'}.get(op)
+            if c and t.k in ('float', 'double'): return "LL_%s_%s(%s, %s)" % (op.upper(), 'F32' if t.k == 'float' else 'F64', a, b)
             if c: return "(%s %s %s)" % (a, c, b)
             if op == 'frem': return "%s(%s, %s)" % ('fmodf' if t.k == 'float' else 'fmod', a, b)
         w = t.w
@@ -1072,13 +1073,66 @@ static inline void ll_memset_loop(uint8_t* d, uint8_t v, size_t n) { for (size_t
 #define LL_SIGN_F64(x) ((uint32_t)(BITCAST(uint64_t, double, (x)) >> 63))
 /* sqrt: correctly rounded in libm and in sqrtps/sqrtss alike. Default: libm / CBMC's model. With -DLL_UNINTERPRETED_SQRT (CBMC only)
    every sqrt call site, scalar or vector lane, is the same uninterpreted function: sound for equalities between two evaluations */
-#if defined(LL_UNINTERPRETED_SQRT) && !defined(LL_NATIVE)
+#if (defined(LL_UNINTERPRETED_SQRT) || defined(LL_UF_FLOAT)) && !defined(LL_NATIVE)
 float __CPROVER_uninterpreted_sqrtf(float); double __CPROVER_uninterpreted_sqrt(double);
-#define LL_SQRTF(x) __CPROVER_uninterpreted_sqrtf(x)
-#define LL_SQRT(x) __CPROVER_uninterpreted_sqrt(x)
+static inline float ll_sqrtf(float a) { if (a != a) return (float)NAN; return __CPROVER_uninterpreted_sqrtf(a); }
+static inline double ll_sqrt(double a) { if (a != a) return (double)NAN; return __CPROVER_uninterpreted_sqrt(a); }
+#define LL_SQRTF(x) ll_sqrtf(x)
+#define LL_SQRT(x) ll_sqrt(x)
 #else
 #define LL_SQRTF(x) sqrtf(x)
 #define LL_SQRT(x) sqrt(x)
+#endif
+/* float arithmetic. Default: the C operators (IEEE, exact). With -DLL_UF_FLOAT (CBMC only; for differential harnesses that compare two
+   evaluations of the same computation) + - * / and the rounding functions become uninterpreted functions, the same symbol at every call
+   site, scalar or vector lane; the operands of the commutative + and * are put into a canonical order first (a+b == b+a bit for bit in
+   IEEE arithmetic, NaN payloads aside). Anything proved equal under this abstraction is equal under the real operations. */
+#if defined(LL_UF_FLOAT) && !defined(LL_NATIVE)
+#define LL_UF_DECL2(n, T) T __CPROVER_uninterpreted_##n(T, T);
+#define LL_UF_DECL1(n, T) T __CPROVER_uninterpreted_##n(T);
+LL_UF_DECL2(fadd_f32, float) LL_UF_DECL2(fsub_f32, float) LL_UF_DECL2(fmul_f32, float) LL_UF_DECL2(fdiv_f32, float)
+LL_UF_DECL2(fadd_f64, double) LL_UF_DECL2(fsub_f64, double) LL_UF_DECL2(fmul_f64, double) LL_UF_DECL2(fdiv_f64, double)
+LL_UF_DECL1(ceilf, float) LL_UF_DECL1(floorf, float) LL_UF_DECL1(truncf, float) LL_UF_DECL1(nearbyintf, float) LL_UF_DECL1(rintf, float) LL_UF_DECL1(roundf, float)
+LL_UF_DECL1(ceil, double) LL_UF_DECL1(floor, double) LL_UF_DECL1(trunc, double) LL_UF_DECL1(nearbyint, double) LL_UF_DECL1(rint, double) LL_UF_DECL1(round, double)
+static inline uint32_t ll_bits_f32(float x) { union { float f; uint32_t u; } v; v.f = x; return v.u; }
+static inline uint64_t ll_bits_f64(double x) { union { double f; uint64_t u; } v; v.f = x; return v.u; }
+/* IEEE facts kept under the abstraction: an operation with a NaN operand returns a NaN (payloads are not modelled anywhere) */
+#define LL_UF_BIN(name, T, B, comm) static inline T ll_##name##_##B(T a, T b) { if (a != a || b != b) return (T)NAN; \
+  int c_ = !(comm) || ll_bits_##B(a) <= ll_bits_##B(b); return __CPROVER_uninterpreted_##name##_##B(c_ ? a : b, c_ ? b : a); }
+LL_UF_BIN(fadd, float, f32, 1) LL_UF_BIN(fmul, float, f32, 1) LL_UF_BIN(fsub, float, f32, 0) LL_UF_BIN(fdiv, float, f32, 0)
+LL_UF_BIN(fadd, double, f64, 1) LL_UF_BIN(fmul, double, f64, 1) LL_UF_BIN(fsub, double, f64, 0) LL_UF_BIN(fdiv, double, f64, 0)
+#define LL_UF_UN(name, T) static inline T ll_##name(T a) { if (a != a) return (T)NAN; return __CPROVER_uninterpreted_##name(a); }
+LL_UF_UN(ceilf, float) LL_UF_UN(floorf, float) LL_UF_UN(truncf, float) LL_UF_UN(nearbyintf, float) LL_UF_UN(rintf, float) LL_UF_UN(roundf, float)
+LL_UF_UN(ceil, double) LL_UF_UN(floor, double) LL_UF_UN(trunc, double) LL_UF_UN(nearbyint, double) LL_UF_UN(rint, double) LL_UF_UN(round, double)
+#define LL_FADD_F32(a, b) ll_fadd_f32(a, b)
+#define LL_FMUL_F32(a, b) ll_fmul_f32(a, b)
+#define LL_FSUB_F32(a, b) ll_fsub_f32(a, b)
+#define LL_FDIV_F32(a, b) ll_fdiv_f32(a, b)
+#define LL_FADD_F64(a, b) ll_fadd_f64(a, b)
+#define LL_FMUL_F64(a, b) ll_fmul_f64(a, b)
+#define LL_FSUB_F64(a, b) ll_fsub_f64(a, b)
+#define LL_FDIV_F64(a, b) ll_fdiv_f64(a, b)
+#define ceilf(x) ll_ceilf(x)
+#define floorf(x) ll_floorf(x)
+#define truncf(x) ll_truncf(x)
+#define nearbyintf(x) ll_nearbyintf(x)
+#define rintf(x) ll_rintf(x)
+#define roundf(x) ll_roundf(x)
+#define ceil(x) ll_ceil(x)
+#define floor(x) ll_floor(x)
+#define trunc(x) ll_trunc(x)
+#define nearbyint(x) ll_nearbyint(x)
+#define rint(x) ll_rint(x)
+#define round(x) ll_round(x)
+#else
+#define LL_FADD_F32(a, b) ((a) + (b))
+#define LL_FSUB_F32(a, b) ((a) - (b))
+#define LL_FMUL_F32(a, b) ((a) * (b))
+#define LL_FDIV_F32(a, b) ((a) / (b))
+#define LL_FADD_F64(a, b) ((a) + (b))
+#define LL_FSUB_F64(a, b) ((a) - (b))
+#define LL_FMUL_F64(a, b) ((a) * (b))
+#define LL_FDIV_F64(a, b) ((a) / (b))
 #endif
 '''
 
@@ -1099,6 +1153,8 @@ def translate(text):
     for n in sorted(em.used_ext):
         if n.startswith('@'):
             ft = ctx.decls[n]
+            # <math.h> (included by the prelude) already declares these with an `int` parameter; re-declaring them with uint32_t conflicts
+            if n in ('@ldexp', '@ldexpf', '@scalbn', '@scalbnf', '@frexp', '@frexpf'): continue
             ext.append("extern %s %s(%s);" % (ctype(ctx, ft.ret), em.fname(n), ", ".join(declare(ctx, a, "") for a in ft.args) or "void"))
     fwd = [x.split('{')[0].strip() + ";" for x in ctx.order]
     out = [PRELUDE] + fwd + ctx.order + ext + sigs + gl + bodies
